@@ -10,3 +10,6 @@ ASSUMPTIONS = ["response-by-response equality on histories is NOT decided (behav
 def run(rep, W, ctx):
     WR.S.s_sql_closed(rep, W)
     WR.c13(rep, W)
+    # "closing and reopening the database changes no later response": what is written is read back as the same value -- the
+    # column codecs of the format descriptor (C19's rules, under their own names)
+    WR.c19(rep, W, ctx)
